@@ -130,6 +130,33 @@ pub fn live_server(ctx : &Ctx, out : &mut Out)
             replay.set("ops", Json::Arr(done.iter().map(|o| Json::s(&o.describe())).collect()));
             replay.set("case", Json::s(&world::show_history_case(true, 1_000_000, &done)));
             replay.set("note", Json::s("the server was started before the first operation and kept running; the clock was not advanced between operations"));
+            // a request for a cached file that a build beside the server takes out of the cache (restore = rename)
+            // between the server's look and its open: the answer must still be the exact bytes or a clean 404
+            {
+                let cached : Vec<(String, Vec<u8>)> = disk.files.iter().filter_map(|(p, n)| p.strip_prefix(&cache_prefix()).map(|_| (p.clone(), (*n.content).clone()))).collect();
+                if !cached.is_empty()
+                {
+                    let (p, content) = r.pick(&cached).clone();
+                    let name = p[cache_prefix().len()..].to_string();
+                    driver.sys.set_race(&p, "raced-away");
+                    out.count("requests:raced-with-a-restore");
+                    let answer = http_get(port, &format!("/files/{}", name));
+                    // put the file back (if the race fired) and disarm
+                    driver.sys.user_move("raced-away", &p);
+                    driver.sys.set_race("", "");
+                    match answer
+                    {
+                        None => { out.violation("C19:server-died", format!("no answer to GET /files/{} (raced with a restore)", name), replay.clone()); },
+                        Some((st, b)) => if !(st == 404 || (st == 200 && b == content))
+                        {
+                            let mut rj = replay.clone();
+                            rj.set("request", Json::s(&format!("/files/{}", name)));
+                            rj.set("race", Json::s("the cache file was renamed away right after the server's is_file answered true"));
+                            out.violation("C19:unclean-answer", format!("GET /files/{} while a build restores that entry: expected the bytes or 404, got {} ({:?})", name, st, String::from_utf8_lossy(&b[..std::cmp::min(b.len(), 80)])), rj);
+                        },
+                    }
+                }
+            }
             for (path, status, body) in expectations(&disk, &mut r)
             {
                 out.count(if status == 200 { "requests:expect-200" } else { "requests:expect-404" });
